@@ -163,6 +163,10 @@ func (s *Server) verifyPriority(pubkey *ecdsa.PublicKey, data *ConsensusCommon) 
 	if err != nil {
 		return err
 	}
+	if data.SubUsers == 0 {
+		// VrfVerifyPriority verifies a credential that won no seat (priority over zero seats) as well
+		return fmt.Errorf("not a proposer: no seat")
+	}
 	isValid, err := VrfVerifyPriority(pk, lookBackSeed, data.RoundIndex, data.Step, data.SortitionProof,
 		data.Priority, data.SubUsers, s.CurrentCaravelParams().ProposerThreshold, stake, totalStake)
 	if err != nil || !isValid {
